@@ -19,6 +19,30 @@ func li(b *builder, depth int, nested *node) *node {
 	return n.add(nested)
 }
 
+// wli: item of a list that is reached through a wrapper element inside an item.
+func wli(b *builder) *node { return b.leaf("li", "li@wrapped") }
+
+// liWith: list item with own text and block children; textAfter puts the item's own text after them.
+func liWith(b *builder, depth int, textAfter bool, kids ...*node) *node {
+	n := el("li")
+	pieces, tok := b.inline()
+	n.tok, n.kind = tok, fmt.Sprintf("li%d", depth)
+	if !textAfter {
+		for _, p := range pieces {
+			n.add(p)
+		}
+	}
+	for _, k := range kids {
+		n.add(k)
+	}
+	if textAfter {
+		for _, p := range pieces {
+			n.add(p)
+		}
+	}
+	return n
+}
+
 // lip: list item whose text is wrapped in a <p> (the li itself has no direct text).
 func lip(b *builder, depth int, nested *node) *node {
 	_ = depth
@@ -146,6 +170,47 @@ var contentShapes = append(headings(), []shape{
 	{"divlists", func(b *builder) []*node {
 		// lists as siblings of one parent, directly adjacent and separated by a paragraph
 		return one(el("div", el("ul", li(b, 1, nil), li(b, 1, nil)), el("ol", li(b, 1, nil)), b.leaf("p", "p"), el("ul", li(b, 1, nil))))
+	}},
+	// list-item contents reached through neutral wrappers inside the item
+	{"liw-div", func(b *builder) []*node {
+		return one(el("ul", liWith(b, 1, false, el("div", el("ul", wli(b), wli(b)))), li(b, 1, nil)))
+	}},
+	{"liw-div-textafter", func(b *builder) []*node {
+		return one(el("ul", liWith(b, 1, true, el("div", el("ol", wli(b)))), li(b, 1, nil)))
+	}},
+	{"liw-section", func(b *builder) []*node {
+		return one(el("ol", liWith(b, 1, false, el("section", el("ul", wli(b)))), li(b, 1, nil)))
+	}},
+	{"liw-span", func(b *builder) []*node {
+		return one(el("ul", liWith(b, 1, false, el("span", el("ul", wli(b)))), li(b, 1, nil)))
+	}},
+	{"liw-div2", func(b *builder) []*node {
+		return one(el("ul", liWith(b, 1, false, el("div", el("section", el("ul", wli(b), wli(b))))), li(b, 1, nil)))
+	}},
+	{"liw-div+direct", func(b *builder) []*node {
+		// a wrapped nested list next to a directly nested one, both orders
+		a := liWith(b, 1, false, el("div", el("ul", wli(b))), el("ul", li(b, 2, nil)))
+		c := liWith(b, 1, false, el("ol", li(b, 2, nil)), el("div", el("ul", wli(b))))
+		return one(el("ul", a, c))
+	}},
+	{"liw-only", func(b *builder) []*node {
+		// the item has no text of its own, only the wrapped list
+		return one(el("ul", el("li", el("div", el("ul", wli(b), wli(b)))), li(b, 1, nil)))
+	}},
+	{"liw-deep", func(b *builder) []*node {
+		in := liWith(b, 2, false, el("div", el("ol", wli(b))))
+		a := b.leaf("li", "li1")
+		a.add(el("ul", in, li(b, 2, nil)))
+		return one(el("ul", a, li(b, 1, nil)))
+	}},
+	{"liw-table", func(b *builder) []*node {
+		return one(el("ul", liWith(b, 1, false, el("div", el("table", el("tr", b.leaf("td", "li-div-td"), b.leaf("th", "li-div-td"))))), li(b, 1, nil)))
+	}},
+	{"liw-bq", func(b *builder) []*node {
+		return one(el("ul", liWith(b, 1, true, el("div", b.leaf("blockquote", "li-div-blockquote"))), li(b, 1, nil)))
+	}},
+	{"liw-pre", func(b *builder) []*node {
+		return one(el("ol", liWith(b, 1, false, el("div", b.leaf("pre", "li-div-pre")), el("section", b.leaf("p", "li-section-p"))), li(b, 1, nil)))
 	}},
 	{"ulp", func(b *builder) []*node { return one(el("ul", lip(b, 1, nil), li(b, 1, nil))) }},
 	{"ulp2", func(b *builder) []*node {
